@@ -1530,9 +1530,28 @@ pub fn run(report: &mut Report, replay: Option<&str>) {
     path_primitives_check(report, &mut model, &mut rng);
     drop(model);
 
+    // ---- corpus: finding witnesses and fixed layouts, replayed first
+    {
+        let dir = concat!(env!("CARGO_MANIFEST_DIR"), "/../corpus/C11");
+        let mut files: Vec<_> = std::fs::read_dir(dir).map(|d| d.flatten().map(|e| e.path()).collect()).unwrap_or_default();
+        files.sort();
+        let mut model = Model::spawn();
+        for f in files {
+            let v: Value = serde_json::from_str(&std::fs::read_to_string(&f).unwrap_or_default()).unwrap_or(Value::Null);
+            if let Some(case) = case_from_json(&v) {
+                let g = Generated { case, faults: BTreeMap::new(), blocked: BTreeSet::new(), shape: "corpus".into() };
+                let o = run_case(&mut model, &g, &mut rng, &listed);
+                report.case(o.nontrivial_key);
+                report.count("corpus_cases", 1);
+                for v in o.violations {
+                    report.violation(v);
+                }
+            }
+        }
+    }
     let thorough = report.is_thorough();
     let threads = 12usize;
-    let (mem_cases, fs_cases) = if thorough { (120_000usize, 36_000usize) } else { (12_000usize, 3_600usize) };
+    let (mem_cases, fs_cases) = if thorough { (48_000usize, 12_000usize) } else { (12_000usize, 3_600usize) };
     let mut handles = Vec::new();
     for t in 0..threads {
         let mut trng = Rng(rng.next_u64());
